@@ -356,10 +356,11 @@ def setup(repo):
     """Bottom frame of a call's sink stack: records every message that reaches it and pushes itself back, so a
     second delivery to the same call is seen as well."""
 
-    def __init__(self, c, onfail=None):
+    def __init__(self, c, onfail=None, onreply=None):
       super(Term, self).__init__()
       self.c = c
       self.onfail = onfail        # what the caller does, synchronously, inside its failure callback
+      self.onreply = onreply      # ... inside its reply callback
 
     def AsyncProcessRequest(self, sink_stack, msg, stream, headers):
       raise NotImplementedError()
@@ -385,21 +386,28 @@ def setup(repo):
             kind = 'err'
       emit('post', self.c, kind, cls, txt)
       sink_stack.Push(self)
-      act, self.onfail = self.onfail, None
       run = _RUN[0]
-      if act and run is not None and kind in ('err', 'timeout', 'clienterr'):
-        # a re-entrant caller: retries on the same transport, or closes it, from inside the response callback
+      if run is None:
+        return
+      if kind == 'reply' and self.onreply:
+        act, self.onreply = self.onreply, None
+        if act == 'next':           # the caller pipelines its next request from inside the reply callback
+          run.issue(self.c + 2000, None, False)
+      act, self.onfail = self.onfail, None
+      if act and kind in ('err', 'timeout', 'clienterr'):
+        # a re-entrant caller: retries on the same transport, closes or re-opens it, or blows up, inside the callback
         if act == 'retry':
-          if run.open_pending() and not run.mux:
-            emit('api', 'skip', 'req')
-          else:
-            run.request(self.c + 1000, None, False)
+          run.issue(self.c + 1000, None, False)
         elif act == 'close':
-          if not run.mux and run.connecting():
-            emit('api', 'skip', 'close')
-          else:
-            emit('api', 'close')
-            run.sink.Close()
+          run.do_close()
+        elif act == 'open':
+          run.do_open(settle=False)
+        elif act == 'raise':
+          emit('cb-raise', self.c, 'ValueError')
+          raise ValueError('the caller\'s failure callback is broken')
+        elif act == 'raise-timeout':
+          emit('cb-raise', self.c, 'Timeout')
+          raise gevent.Timeout()
 
   _S.update(ts=ts, ms=ms, tms=tms, sk=sk, msgm=msgm, ob=ob, Term=Term, ChannelState=ChannelState, SinkProperties=SinkProperties,
             TransportHeaders=TransportHeaders, Endpoint=Endpoint, tser=TSer(Hello.Iface), mser=MSer(Hello.Iface))
@@ -481,8 +489,60 @@ class Run(object):
     sinkcls = _S['tms'].SocketTransportSink if self.mux else _S['ts'].SocketTransportSink
     props = {_S['SinkProperties'].Endpoint: _S['Endpoint']('h', PORT), _S['SinkProperties'].Label: 'svc'}
     self.sink = sinkcls.Builder().CreateSink(props)
-    self.sink.on_faulted.Subscribe(lambda v: emit('fault', type(v).__name__))
     self.open_ars = []
+    self.on_fault = case.get('on_fault')      # what a fault subscriber does from inside the notification
+
+    def faulted(v):
+      emit('fault', type(v).__name__)
+      act, self.on_fault = self.on_fault, None
+      if act == 'close':
+        self.do_close()
+      elif act == 'req':
+        self.issue(3000, None, False)
+      elif act == 'open':
+        self.do_open(settle=False)
+    self.sink.on_faulted.Subscribe(faulted)
+    n = sv.get('rx_chunk')
+    if n:
+      # everything the peer sends arrives in pieces of n bytes (n = 1: a message split at every byte boundary)
+      srv_connect = self.srv.on_connect
+
+      def on_connect(conn):
+        send = conn.send
+
+        def chunked(data, chunks=None):
+          return send(data, chunks or [n] * (len(data) // n + 1))
+        conn.send = chunked
+        return srv_connect(conn)
+      self.srv.on_connect = on_connect
+
+  # -- the three API entry points with the owner-contract guards, usable from ops and from inside callbacks ------------
+  def issue(self, c, dl, ev, onfail=None, pad=0, onreply=None):
+    if c in self.calls:
+      return
+    if self.open_pending() and not self.mux:
+      emit('api', 'skip', 'req')      # the pool only lends a serial sink whose Open() completed
+    else:
+      self.request(c, dl, ev, onfail, pad, onreply)
+
+  def do_close(self):
+    if not self.mux and self.connecting():
+      emit('api', 'skip', 'close')
+    else:
+      emit('api', 'close')
+      self.sink.Close()
+
+  def do_open(self, settle=True):
+    busy = self.connecting() or (sum(1 for e in self.ev if e[0] == 'w' and e[1] == 'open-end' and e[2] == 'ok') >
+                                 sum(1 for e in self.ev if e[0] == 'arget')) if self.mux else (self.inflight() or self.connecting())
+    if self.open_pending() or busy:
+      # not while an earlier _OpenImpl is still running (mux), nor on a serial sink that carries a request
+      emit('api', 'skip', 'open')
+      return
+    emit('api', 'open')
+    self.open_ars.append(self.sink.Open())
+    if settle:
+      self.w.settle()
 
   # -- observation ---------------------------------------------------------------------------------
   def cut(self, op_index, what):
@@ -499,9 +559,10 @@ class Run(object):
     return 'ok' if a.successful() else 'exc:' + type(a.exception).__name__
 
   # -- ops -----------------------------------------------------------------------------------------
-  def request(self, c, dl, ev, onfail=None):
+  def request(self, c, dl, ev, onfail=None, pad=0, onreply=None):
     S = _S
-    msg = S['msgm'].MethodCallMessage(Hello.Iface, 'hi', (str(c),), {})
+    arg = str(c) if not pad else str(c) + '|' + 'x' * int(pad)
+    msg = S['msgm'].MethodCallMessage(Hello.Iface, 'hi', (arg,), {})
     if dl is not None:
       msg.properties[S['msgm'].Deadline.KEY] = self.w.clock.now + dl * V.TICK
     evt = None
@@ -509,7 +570,7 @@ class Run(object):
       evt = S['ob'].Observable()
       msg.properties[S['msgm'].Deadline.EVENT_KEY] = evt
     st = S['sk'].ClientMessageSinkStack()
-    st.Push(S['Term'](c, onfail))
+    st.Push(S['Term'](c, onfail, onreply))
     self.calls[c] = {'evt': evt, 'stack': st, 'msg': msg}
     buf = io.BytesIO()
     headers = {}
@@ -517,7 +578,7 @@ class Run(object):
       S['mser'].Marshal(msg, buf, headers)
     else:
       S['tser'].SerializeThriftCall(msg, buf)
-    if self.mux and self.open_pending():
+    if self.mux and self.open_pending() and _state_name(self.sink) == 'Idle':
       # the caller blocks inside AsyncProcessRequest until the open result is ready: it needs its own greenlet
       emit('api', 'req', c, dl, 'blocked')
 
@@ -539,6 +600,21 @@ class Run(object):
     except Exception as e:      # an exception out of AsyncProcessRequest itself
       emit('raise', c, type(e).__name__, str(e)[:80])
     emit('api', 'req-ret', c)
+
+  def peer(self, act):
+    for cn in self.srv.conns:
+      if not cn.closed_by_client and not cn.closed_by_peer:
+        emit('api', 'peer', act[0])
+        if act[0] == 'close':
+          cn.close()
+        elif act[0] == 'reset':
+          cn.reset()
+        elif act[0] == 'rping':
+          cn.send(P.mux_frame(P.R_PING, 1, b''))
+        elif act[0] == 'junk':
+          cn.send(P.mux_frame(P.R_DISPATCH, act[1] if len(act) > 1 else 0, b'\x00\x00\x00'))
+        elif act[0] == 'raw':
+          cn.send(bytes.fromhex(act[1]))
 
   def advance(self, n):
     w = self.w
@@ -583,23 +659,15 @@ class Run(object):
       self.opi = i
       k = op[0]
       if k == 'open':
-        if (self.mux and self.open_ars) or (not self.mux and (self.inflight() or self.open_pending() or self.connecting())):
-          # a mux sink cannot be re-opened; a serial sink may be (a new incarnation) once it carries nothing
-          emit('api', 'skip', 'open')
-        else:
-          emit('api', 'open')
-          self.open_ars.append(self.sink.Open())
-          w.settle()
+        self.do_open()
       elif k == 'req':
         c, dl = op[1], op[2]
         if c in self.calls:
           continue
-        if self.open_pending() and not self.mux:
-          emit('api', 'skip', 'req')      # the pool only lends a serial sink whose Open() completed
-        else:
-          self.request(c, dl, bool(op[4]) if len(op) > 4 else False, op[5] if len(op) > 5 else None)
-          if len(op) < 4 or op[3]:
-            w.settle()
+        self.issue(c, dl, bool(op[4]) if len(op) > 4 else False, op[5] if len(op) > 5 else None,
+                   op[6] if len(op) > 6 else 0, op[7] if len(op) > 7 else None)
+        if len(op) < 4 or op[3]:
+          w.settle()
       elif k == 'expire':
         cl = self.calls.get(op[1])
         if cl and cl['evt'] is not None and not cl.get('fired'):
@@ -610,24 +678,14 @@ class Run(object):
       elif k == 'adv':
         self.advance(op[1])
       elif k == 'close':
-        if not self.mux and self.connecting():
-          emit('api', 'skip', 'close')
-        else:
-          emit('api', 'close')
-          self.sink.Close()
-          w.settle()
+        self.do_close()
+        w.settle()
+      elif k == 'peer_at':
+        # a peer action scheduled on the virtual clock (lands at the same instant as the transport's own timers)
+        act = list(op[2:])
+        w.clock.call_at(w.clock.now + op[1] * V.TICK, lambda act=act: self.peer(act))
       elif k == 'peer':
-        for cn in self.srv.conns:
-          if not cn.closed_by_client and not cn.closed_by_peer:
-            emit('api', 'peer', op[1])
-            if op[1] == 'close':
-              cn.close()
-            elif op[1] == 'reset':
-              cn.reset()
-            elif op[1] == 'rping':
-              cn.send(P.mux_frame(P.R_PING, 1, b''))
-            elif op[1] == 'junk':
-              cn.send(P.mux_frame(P.R_DISPATCH, op[2] if len(op) > 2 else 0, b'\x00\x00\x00'))
+        self.peer(list(op[1:]))
         w.settle()
       elif k == 'ping':
         self.srv.ping = op[1]
@@ -637,7 +695,7 @@ class Run(object):
     return self.result()
 
   def result(self):
-    reqs = [[ticks(r['time']), r['arg'], r.get('tag')] for r in self.srv.requests]
+    reqs = [[ticks(r['time']), str(r['arg']).split('|')[0], r.get('tag'), len(str(r['arg']))] for r in self.srv.requests]
     wire = []
     for (t, _p, cid, data) in self.w.wire:
       wire.append([ticks(t), cid, len(data), data[:8].hex()])
@@ -661,3 +719,76 @@ def run_case(case):
     return r.run()
   finally:
     r.close()
+
+
+def run_twin(case):
+  """Two transport instances of the same class (two endpoints) in one world; nothing but the public API is used."""
+  mux = case['proto'] == 'mux'
+  rng = random.Random(case.get('seed', 0))
+  w = V.World(rng, t0=T0, tie='fifo')
+  _S['repatch']()
+  ev = []
+  _LOG[0] = ev
+  _RUN[0] = None
+  try:
+    srvs, sinks, faults = [], [], [0, 0]
+    for i in (0, 1):
+      port = PORT + i
+      cls = P.MuxServer if mux else P.ThriftServer
+      srv = cls(port, reachable=True, plan={}, default={'act': 'reply', 'delay': 1}, **({'ping': True} if mux else {}))
+      w.add_server(srv)
+      srvs.append(srv)
+      sinkcls = _S['tms'].SocketTransportSink if mux else _S['ts'].SocketTransportSink
+      sk = sinkcls.Builder().CreateSink({_S['SinkProperties'].Endpoint: _S['Endpoint']('h', port), _S['SinkProperties'].Label: 'svc'})
+
+      def faulted(v, i=i):
+        faults[i] += 1
+      sk.on_faulted.Subscribe(faulted)
+      sinks.append(sk)
+    w.rand_hook = lambda kind, a, b: min(max(rng.randint(a, b), a), b)
+    calls = []
+    for op in case['ops']:
+      k = op[0]
+      if k == 'open':
+        sinks[op[1]].Open()
+        w.settle()
+      elif k == 'req':
+        i, c = op[1], op[2]
+        msg = _S['msgm'].MethodCallMessage(Hello.Iface, 'hi', (str(c),), {})
+        st = _S['sk'].ClientMessageSinkStack()
+        st.Push(_S['Term'](c))
+        buf = io.BytesIO()
+        headers = {}
+        if mux:
+          _S['mser'].Marshal(msg, buf, headers)
+        else:
+          _S['tser'].SerializeThriftCall(msg, buf)
+        calls.append([c, i])
+        try:
+          sinks[i].AsyncProcessRequest(st, msg, buf, headers)
+        except Exception as e:
+          ev.append(['raise', c, type(e).__name__])
+        w.settle()
+      elif k == 'adv':
+        w.advance(op[1] * V.TICK)
+      elif k == 'close':
+        sinks[op[1]].Close()
+        w.settle()
+      elif k == 'peer':
+        for cn in srvs[op[1]].conns:
+          if not cn.closed_by_client and not cn.closed_by_peer:
+            if op[2] == 'close':
+              cn.close()
+            else:
+              cn.reset()
+        w.settle()
+    w.advance(2 * V.TICK)
+    return {'ev': [e for e in ev if e[0] in ('post', 'raise')], 'calls': calls, 'faults': faults,
+            'states': [_state_name(x) for x in sinks], 'requests': [[str(r['arg']) for r in s_.requests] for s_ in srvs],
+            'crashes': w.crashes}
+  finally:
+    _LOG[0] = None
+    try:
+      w.close()
+    except Exception:
+      pass
